@@ -164,7 +164,7 @@ def run(rep, tier, seed):
         texts = [t[0] for t in btexts[k]]
         words_of[gi], texts_of[gi] = [(t,) for t in texts], texts
         fl = dict(ps=0, pse=0, ms=c.flags["ms"], lm=c.flags["lm"], go=1, skipws=c.flags["skipws"], partial=0)
-        cases.append(Case("L%d" % gi, c.grammar, texts, algo="LR", table="LALR_PAGER", run="LR", flags=fl,
+        cases.append(Case("L%d" % gi, c.grammar, texts, algo="LR", table="LALR_PAGER", run="LR", flags=dict(fl, match=1),
                           meta=dict(gi=gi, side="LR", shape=gs[gi].shape)))
         cases.append(Case("G%d" % gi, c.grammar, texts, algo="GLR", table="LALR_RN", run="GLR", flags=fl,
                           meta=dict(gi=gi, side="GLR", shape=gs[gi].shape)))
@@ -174,7 +174,7 @@ def run(rep, tier, seed):
         by[(r.case.meta["gi"], r.case.meta["side"])] = r
     fnd = C3.Findings()
     pairs = []       # (gi, i, lr_parsed, glr_parsed)
-    n_prog = 0
+    n_prog = n_lex_overlap = 0
     for gi in inscope:
         rl, rg = by[(gi, "LR")], by[(gi, "GLR")]
         base = dict(grammar=rl.case.grammar, lr=dict(algo="LR", table="LALR_PAGER"), glr=dict(algo="GLR", table="LALR_RN"))
@@ -189,6 +189,14 @@ def run(rep, tier, seed):
         for i, w in enumerate(words_of[gi]):
             if (rl.skip_from is not None and i >= rl.skip_from) or (rg.skip_from is not None and i >= rg.skip_from):
                 continue
+            if isinstance(gs[gi], ByteShape):
+                # "a grammar that needs no disambiguation": inputs on which lexical disambiguation (priority, most
+                # specific, longest match) would have to choose - two terminals match at one offset - are outside the
+                # premise (context-aware lexing then depends on the precision of the table, LALR_PAGER vs LALR_RN)
+                m = rl.matches.get(i)
+                if m is None or any(len(d) > 1 for _, (ws, d) in m.items()):
+                    n_lex_overlap += 1
+                    continue
             pairs.append((gi, i, parse_lr(rl.results.get(("LR", i))), parse_glr(rg.results.get(("GLR", i)))))
     # ---- (V) the hypotheses of theorem tables_agree on the REAL pair of tables of every grammar
     vjobs, vtags = [], []
@@ -305,7 +313,7 @@ def run(rep, tier, seed):
              "varying whitespace/newlines; non-trivial = inputs both runtimes accepted and whose trees were compared "
              "(spans, values) in Coq" % maxlen,
         grammars_generated=len(gs), grammars_in_scope=len(inscope), byte_level_grammars_in_scope=n_byte_scope,
-        table_pairs_validated=n_tab, table_pairs_passing_all_hypotheses_of_tables_agree=n_tab_ok, grammars_with_conflicts=n_conf,
+        byte_level_inputs_skipped_lexical_overlap=n_lex_overlap, table_pairs_validated=n_tab, table_pairs_passing_all_hypotheses_of_tables_agree=n_tab_ok, grammars_with_conflicts=n_conf,
         grammars_compiler_error=n_err, shapes=shapes,
         inputs_accepted_by_both=n_ok, inputs_rejected_by_both=n_err_in, trees_compared=n_cmp,
         trees_with_elided_children=n_rn, expected_set_differs_same_position=n_exp_diff, samples=samples)
